@@ -1,8 +1,9 @@
 #!/bin/sh
 # development aid: confirm each sub-agent mutant in its own scratch worktree:
 # patch applies, suite passes with it, demo fails with it and passes without it.
-pid=$1
-wt=/tmp/wt_$pid
+# usage: validate_mutants.sh <worktree-prefix> <pid>     e.g. /tmp/wt2_ C04
+pre=$1; pid=$2
+wt=$pre$pid
 cd $wt || exit 2
 for m in A B; do
   [ -f mutant_$m.patch ] || continue
